@@ -153,16 +153,26 @@ DiscClass(N, s) ==
 ShapeClass(N, s) == CASE s.k = "rect" -> RingClass(N, RectRing(s), s.rot[3])
                       [] s.k = "poly" -> RingClass(N, s.v, 1)
                       [] s.k = "disc" -> DiscClass(N, s)
+Dense == PerClass > 2                          \* thorough tier: the full candidate sets
 Cands(kind) ==
-    CASE kind = "rect0"   -> {RectS(<<x, y>>, 1, 1, Id) : x \in -1..13, y \in -1..9} \cup
-                             {RectS(<<x, y>>, 2, 1, Id) : x \in {0, 2, 4, 6, 8, 10, 12}, y \in {-1, 1, 3, 5, 7, 9}}
-      [] kind = "rectq"   -> {RectS(<<x, y>>, 2, 1, <<0, 1, 1>>) : x \in {-1, 1, 3, 5, 7, 9, 11, 13}, y \in {-2, 0, 2, 4, 6, 8, 10}} \cup
+    CASE kind = "rect0"   -> {RectS(<<x, y>>, 1, 1, Id) : x \in IF Dense THEN -1..13 ELSE {-1, 0, 1, 2, 3, 4, 5, 7, 9, 13},
+                                                          y \in IF Dense THEN -1..9 ELSE {-1, 0, 1, 2, 3, 5, 9}} \cup
+                             {RectS(<<x, y>>, 2, 1, Id) : x \in IF Dense THEN {0, 2, 4, 6, 8, 10, 12} ELSE {0, 4, 8, 12},
+                                                          y \in IF Dense THEN {-1, 1, 3, 5, 7, 9} ELSE {1, 3, 5}}
+      [] kind = "rectq"   -> {RectS(<<x, y>>, 2, 1, <<0, 1, 1>>) : x \in IF Dense THEN {-1, 1, 3, 5, 7, 9, 11, 13} ELSE {-1, 1, 3, 5, 9, 13},
+                                                                   y \in IF Dense THEN {-2, 0, 2, 4, 6, 8, 10} ELSE {-2, 0, 2, 4, 8}} \cup
                              {RectS(<<x, y>>, 1, 1, <<-1, 0, 1>>) : x \in {1, 4, 5}, y \in {1, 2, 3}}
-      [] kind = "rect345" -> {RectS(<<x, y>>, 5, 5, <<3, 4, 5>>) : x \in -7..19, y \in {-7, -5, -1, 1, 3, 6, 9, 11, 15}} \cup
-                             {RectS(<<x, y>>, 2, 1, <<4, -3, 5>>) : x \in {-2, 0, 1, 3, 4, 6, 9}, y \in {-2, 0, 1, 3, 4, 7}}
-      [] kind = "disc"    -> {[k |-> "disc", c |-> <<x, y>>, r |-> r] : x \in -4..16, y \in {-4, -3, -2, -1, 0, 1, 3, 4, 6, 9, 11, 12}, r \in {2, 4}}
-      [] kind = "poly"    -> {[k |-> "poly", v |-> <<<<x, y>>, <<x + 2, y>>, <<x, y + 2>>>>] : x \in {-2, 0, 1, 2, 4, 6, 7, 12}, y \in {-2, 0, 1, 2, 4, 6, 8}} \cup
-                             {[k |-> "poly", v |-> <<<<x - 2, y>>, <<x, y - 2>>, <<x + 2, y>>, <<x, y + 2>>>>] : x \in {-2, 0, 2, 3, 4, 8}, y \in {-2, 0, 1, 2, 4, 6}}
+      [] kind = "rect345" -> {RectS(<<x, y>>, 5, 5, <<3, 4, 5>>) : x \in IF Dense THEN -7..19 ELSE {-7, -5, -3, -1, 1, 3, 5, 9, 13, 19},
+                                                                   y \in IF Dense THEN {-7, -5, -1, 1, 3, 6, 9, 11, 15} ELSE {-7, -1, 1, 6, 11, 15}} \cup
+                             {RectS(<<x, y>>, 2, 1, <<4, -3, 5>>) : x \in IF Dense THEN {-2, 0, 1, 3, 4, 6, 9} ELSE {-2, 1, 3, 6},
+                                                                    y \in IF Dense THEN {-2, 0, 1, 3, 4, 7} ELSE {-2, 1, 3, 7}}
+      [] kind = "disc"    -> {[k |-> "disc", c |-> <<x, y>>, r |-> r] : x \in IF Dense THEN -4..16 ELSE {-4, -3, -2, -1, 0, 1, 3, 5, 8, 12},
+                                                                        y \in IF Dense THEN {-4, -3, -2, -1, 0, 1, 3, 4, 6, 9, 11, 12} ELSE {-4, -3, -2, -1, 1, 3, 6},
+                                                                        r \in {2, 4}}
+      [] kind = "poly"    -> {[k |-> "poly", v |-> <<<<x, y>>, <<x + 2, y>>, <<x, y + 2>>>>] :
+                                  x \in IF Dense THEN {-2, 0, 1, 2, 4, 6, 7, 12} ELSE {-2, 0, 1, 2, 4, 7}, y \in IF Dense THEN {-2, 0, 1, 2, 4, 6, 8} ELSE {-2, 0, 1, 2, 4, 6}} \cup
+                             {[k |-> "poly", v |-> <<<<x - 2, y>>, <<x, y - 2>>, <<x + 2, y>>, <<x, y + 2>>>>] :
+                                  x \in IF Dense THEN {-2, 0, 2, 3, 4, 8} ELSE {-2, 0, 2, 3, 4}, y \in IF Dense THEN {-2, 0, 1, 2, 4, 6} ELSE {-2, 0, 1, 2, 4}}
 Kinds   == <<"rect0", "rectq", "rect345", "disc", "poly">>
 Classes == <<"inside", "overlapping", "reaching", "touching", "touching-edge", "touching-corner", "disjoint">>
 ShapeQueries(N) ==
